@@ -26,23 +26,36 @@ CONSTANTS Mode,        \* "rpc" | "dc"
           Leaves,      \* leaf alphabet for this run
           DeepLeaves,  \* leaves allowed below two or more constructors (a subset keeps the quick tier small)
           SigLeaves,   \* rpc: leaves that are additionally embedded in two-parameter / defaulted signatures
-          Variants     \* dc: field variants ("plain", "default", "transient")
+          Variants     \* dc: class variants: "plain", "default" (field default), "transient" (Transient sibling),
+                       \* "inherited" (the class extends another serializable dataclass whose caches are warm),
+                       \* "extras" (ClassVar + InitVar with default + property next to the field), "slots"
 
 \* ------------------------------------------------------------------ alphabets
-AllCtors == {"opt", "list", "set", "map_str", "map_int", "map_bytes", "map_enum", "dc"}
+\* dcb = a dataclass-typed field stored as an IPC blob: Annotated[D, ArrowType(pa.binary())] (the code's
+\* "binary_dataclass" branch); only meaningful as the outermost constructor of a dataclass field, optionally under opt
+\* (spelled Annotated[Optional[D], ArrowType(pa.binary())])
+AllCtors == {"opt", "list", "set", "map_str", "map_int", "map_bytes", "map_enum", "dc", "dcb"}
 Containers == {"list", "set", "map_str", "map_int", "map_bytes", "map_enum"}
-SignedLeaves == {"int", "i8", "i16", "i32"}
+\* nt_* = typing.NewType over that type (the code unwraps __supertype__); ann_int = Annotated[int, "doc"] (Annotated
+\* without an ArrowType marker: the code recurses into the base type)
+SignedLeaves == {"int", "i8", "i16", "i32", "nt_int", "ann_int"}
 UnsignedLeaves == {"u8", "u16", "u32", "u64"}
 IntLeaves == SignedLeaves \cup UnsignedLeaves
-FloatLeaves == {"float", "f32"}
-TemporalLeaves == {"ts_us", "ts_tz", "date", "time", "dur"}
+FloatLeaves == {"float", "f32", "f16"}
+TemporalLeaves == {"ts_us", "ts_tz", "ts_ns", "date", "time", "dur"}
 ArrowObjLeaves == {"schema", "batch"}
 UnsupportedLeaves == {"tuple", "mset"}
 \* enum = plain Enum; senum = enum.StrEnum; ienum = enum.IntEnum; menum = class E(str, Enum) -- the members of the last
 \* three are themselves str / int instances, so any "is it a plain scalar?" shortcut sees them as scalars
-EnumLeaves == {"enum", "senum", "ienum", "menum"}
-ScalarLeaves == IntLeaves \cup FloatLeaves \cup {"str", "bytes", "bool", "dec"} \cup EnumLeaves \cup TemporalLeaves
-AllLeaves == ScalarLeaves \cup ArrowObjLeaves \cup UnsupportedLeaves
+EnumLeaves == {"enum", "senum", "ienum", "menum", "nt_enum"}
+\* leaf dataclasses: dc0 = a dataclass without any field, dct = one whose only field is Transient (both serialise to
+\* a zero-column batch / struct<>), nt_dc = NewType over a dataclass; custom = a user class with serialize_to_bytes /
+\* deserialize_from_bytes stored in a binary column (the code's _BytesSerializable branch)
+DcLeaves == {"dc0", "dct", "nt_dc"}
+\* leaves whose wire form needs a conversion step on the way back
+ConvLeaves == EnumLeaves \cup DcLeaves \cup {"custom"}
+ScalarLeaves == IntLeaves \cup FloatLeaves \cup {"str", "bytes", "bool", "dec", "nt_str", "nt_bytes"} \cup EnumLeaves \cup TemporalLeaves
+AllLeaves == ScalarLeaves \cup ArrowObjLeaves \cup UnsupportedLeaves \cup DcLeaves \cup {"custom"}
 
 \* value classes of a leaf; OOR = classes the declared type cannot represent
 InRange(l) ==
@@ -50,8 +63,13 @@ InRange(l) ==
     [] l \in UnsignedLeaves -> {"zero", "max", "mid"}
     [] l = "float"          -> {"zero", "negzero", "nan", "inf", "max", "denorm", "typical"}
     [] l = "f32"            -> {"zero", "negzero", "nan", "inf", "max", "denorm", "typical"}
-    [] l = "str"            -> {"empty", "ascii", "nonascii", "nul"}
-    [] l = "bytes"          -> {"empty", "nul_ff", "long"}
+    [] l = "f16"            -> {"zero", "negzero", "nan", "inf", "max", "typical"}
+    [] l \in {"str", "nt_str"}     -> {"empty", "ascii", "nonascii", "nul"}
+    [] l \in {"bytes", "nt_bytes"} -> {"empty", "nul_ff", "long"}
+    [] l = "custom"         -> {"empty", "nul_ff"}
+    [] l \in DcLeaves       -> {"instance"}
+    [] l = "nt_enum"        -> {"value_ne_name", "value_is_other_name", "int_valued"}
+    [] l = "ts_ns"          -> {"epoch", "micro"}
     [] l = "bool"           -> {"true", "false"}
     [] l = "enum"           -> {"value_ne_name", "value_is_other_name", "int_valued"}
     [] l = "senum"          -> {"value_ne_name", "value_is_other_name"}
@@ -68,12 +86,19 @@ InRange(l) ==
     [] OTHER                -> {"any"}
 OutOfRange(l) ==
   CASE l \in IntLeaves      -> {"above_max", "below_min"}
-    [] l = "str"            -> {"surrogate"}
+    [] l \in {"str", "nt_str"} -> {"surrogate"}
+    [] l = "ts_ns"          -> {"out_of_ns_range"}
     [] l = "dec"            -> {"too_many_digits", "too_fine"}
     [] l = "dur"            -> {"too_big"}
     [] OTHER                -> {}
 \* lossy narrowing inside the float domain (a double that float32 cannot hold exactly / at all)
-Narrowing(l) == IF l = "f32" THEN {"inexact", "overflow", "underflow"} ELSE {}
+\* ... and coercions pyarrow applies between naive and aware datetimes (an aware value given to a naive timestamp is
+\* converted to UTC and loses its zone; a naive value given to a UTC timestamp is taken as UTC): same set-valued oracle
+Narrowing(l) == CASE l = "f32" -> {"inexact", "overflow", "underflow"}
+                  [] l = "f16" -> {"inexact", "overflow"}
+                  [] l = "ts_us" -> {"aware"}
+                  [] l = "ts_tz" -> {"naive"}
+                  [] OTHER -> {}
 Classes(l) == InRange(l) \cup OutOfRange(l) \cup Narrowing(l)
 \* classes that do not survive hashing-based equality (NaN # NaN, 0.0 = -0.0): never put inside a set
 Unhashed(l) == IF l \in FloatLeaves THEN {"nan", "negzero"} ELSE {}
@@ -92,11 +117,15 @@ PrefixesUpTo(n) == IF n = 0 THEN {<<>>}
 \* below a set before the next dc-free path; a dataclass is hashable iff its fields are)
 RECURSIVE Hashable(_)
 Hashable(t) == IF Len(t) = 1 THEN t[1] # "batch"
-               ELSE IF t[1] \in {"list", "map_str", "map_int", "map_bytes", "map_enum"} THEN FALSE
+               ELSE IF t[1] \in {"list", "map_str", "map_int", "map_bytes", "map_enum", "dcb"} THEN FALSE
                ELSE Hashable(Tail(t))
 WellFormed(t) == /\ \A i \in 1..(Len(t) - 1) : ~(t[i] = "opt" /\ t[i + 1] = "opt")
                  /\ \A i \in 1..(Len(t) - 1) : t[i] = "set" => Hashable(SubSeq(t, i + 1, Len(t)))
                  /\ (Leaf(t) \in UnsupportedLeaves => Len(t) <= 2)
+                 \* the binary-dataclass marker is a property of the field annotation itself
+                 /\ \A i \in 1..(Len(t) - 1) : t[i] = "dcb" => (i = 1 \/ (i = 2 /\ t[1] = "opt"))
+                 \* a custom bytes-serializable class is looked up on the field's own (optional) annotation only
+                 /\ (Leaf(t) = "custom" => (Len(t) = 1 \/ (Len(t) = 2 /\ t[1] = "opt")))
 
 \* statement scope.  rpc: scalars, optionals, enums, lists / maps / sets of scalars, nested dataclasses, temporal,
 \* decimal -- containers hold (optional) scalars only; below a dc the dataclass grammar applies.
@@ -105,16 +134,18 @@ RpcTop(p) == \/ p = <<>> \/ p = <<"opt">>
              \/ (Len(p) = 1 /\ p[1] \in Containers)
              \/ (Len(p) = 2 /\ p[1] = "opt" /\ p[2] \in Containers)
              \/ (Len(p) = 2 /\ p[1] \in Containers /\ p[2] = "opt")
-InScope(t) ==
-  /\ WellFormed(t)
-  /\ IF Mode = "dc" THEN TRUE
-     ELSE LET p == Prefix(t) IN
+RpcScope(t) ==
+  LET p == Prefix(t) IN
           \/ (/\ RpcTop(p) /\ Leaf(t) \notin ArrowObjLeaves
-              \* "lists, maps and sets of scalars": Enum is listed next to, not among, the scalars -- an Enum inside
-              \* an RPC-level container (element, value or key) is outside the statement (it works in dataclass fields)
-              /\ (HasContainer(t) => (Leaf(t) \notin EnumLeaves /\ ~Has(t, "map_enum"))))
+              \* "lists, maps and sets of scalars": Enum is listed next to, not among, the scalars -- an Enum (or a
+              \* dataclass) inside an RPC-level container (element, value or key) is outside the statement (it works
+              \* in dataclass fields)
+              /\ (HasContainer(t) => (Leaf(t) \notin ConvLeaves /\ ~Has(t, "map_enum"))))
           \/ (Len(p) >= 1 /\ p[1] = "dc")
           \/ (Len(p) >= 2 /\ p[1] = "opt" /\ p[2] = "dc")
+InScope(t) ==
+  /\ WellFormed(t)
+  /\ (Mode = "rpc" => (~Has(t, "dcb") /\ Leaf(t) # "custom" /\ RpcScope(t)))
 TypesInScope == {t \in {p \o <<l>> : p \in PrefixesUpTo(MaxDepth), l \in Leaves} :
                     InScope(t) /\ (Len(t) >= 3 => Leaf(t) \in DeepLeaves)}
 
@@ -132,18 +163,29 @@ SigsOf(t) == IF Mode # "rpc" THEN {[second |-> "-", dflt |-> "none"]}
                   \cup (IF Leaf(t) \in SigLeaves /\ Len(t) <= 2 /\ Leaf(t) \notin UnsupportedLeaves
                         THEN {[second |-> "-", dflt |-> "first"]}
                              \cup {[second |-> s, dflt |-> d] : s \in {"int", "ostr"}, d \in {"none", "second", "both"}}
+                             \* "void": the method takes the value and returns None (only what the implementation received
+                             \* is observable); "result_only": the method takes nothing and returns the value
+                             \cup {[second |-> "-", dflt |-> "void"], [second |-> "-", dflt |-> "result_only"]}
                         ELSE {})
+\* positions of a value in an RPC: "unary" (parameter + result of a unary method) or "stream" -- parameter of a stream
+\* method, field of the stream header, field of the producer state (re-read from the state token on every HTTP turn)
+\* and field of the call state
+PositionsOf(t, g) == IF Mode = "rpc" /\ g.second = "-" /\ g.dflt = "none" /\ Leaf(t) \in SigLeaves /\ Len(t) <= 2
+                        /\ Leaf(t) \notin UnsupportedLeaves
+                     THEN {"unary", "stream"} ELSE {IF Mode = "rpc" THEN "unary" ELSE "field"}
 VariantsOf(t) == IF Mode = "dc" /\ Len(t) <= 2 /\ Leaf(t) \notin UnsupportedLeaves THEN Variants ELSE {"plain"}
 
-Cases == UNION {UNION {{[t |-> t, shape |-> s, k |-> k, second |-> g.second, dflt |-> g.dflt, variant |-> v] :
-                          k \in KOf(t, s), g \in (IF s \in {"single", "none"} THEN SigsOf(t) ELSE {[second |-> "-", dflt |-> "none"]}),
-                          v \in (IF s \in {"single", "none"} THEN VariantsOf(t) ELSE {"plain"})} : s \in Shapes(t)}
+Cases == UNION {UNION {UNION {{[t |-> t, shape |-> s, k |-> k, second |-> g.second, dflt |-> g.dflt, variant |-> v, pos |-> ps] :
+                          k \in KOf(t, s), v \in (IF s \in {"single", "none"} THEN VariantsOf(t) ELSE {"plain"}),
+                          ps \in (IF s \in {"single", "none"} THEN PositionsOf(t, g) ELSE {IF Mode = "rpc" THEN "unary" ELSE "field"})}
+                          : g \in (IF s \in {"single", "none"} THEN SigsOf(t) ELSE {[second |-> "-", dflt |-> "none"]})} : s \in Shapes(t)}
                 : t \in TypesInScope}
 
 \* ------------------------------------------------------------------ oracle
 (* "def_rejected"  the annotation is documented as unsupported: must be refused when the type is defined
    "rejected"      the value is outside what the declared type can represent: an error, never a changed value
-   "narrowed"      float narrowing: an error or the IEEE-754 nearest float32 (set-valued, see Dev_FloatNarrowingIEEE)
+   "narrowed"      float narrowing / naive-aware datetime coercion: an error or exactly the IEEE-754 nearest float of
+                   the declared width / the coerced instant (set-valued, see Dev_FloatNarrowingIEEE)
    "roundtrip"     the value comes back equal                                                                   *)
 Expected(c) == IF Leaf(c.t) \in UnsupportedLeaves THEN "def_rejected"
                ELSE IF c.k \in OutOfRange(Leaf(c.t)) THEN "rejected"
@@ -159,7 +201,10 @@ ClassesPartition(c) == LET l == Leaf(c.t) IN /\ InRange(l) \cap OutOfRange(l) = 
                                              /\ InRange(l) \cap Narrowing(l) = {}
                                              /\ (c.k # "-" => c.k \in Classes(l) \cup {"any"})
 SetsHoldHashables(c) == Has(c.t, "set") => (c.k \notin {"nan", "negzero"})
-ScopeRespected(c) == InScope(c.t) /\ (Mode = "rpc" => (c.variant = "plain")) /\ (Mode = "dc" => (c.second = "-" /\ c.dflt = "none"))
+ScopeRespected(c) == /\ InScope(c.t)
+                     /\ (Mode = "rpc" => (c.variant = "plain" /\ c.pos \in {"unary", "stream"}))
+                     /\ (Mode = "dc" => (c.second = "-" /\ c.dflt = "none" /\ c.pos = "field"))
+                     /\ (c.pos = "stream" => (c.second = "-" /\ c.dflt = "none"))
 
 \* ------------------------------------------------------------------ judging what the real code did
 (* observation o = [stage, outcome, nearest]
